@@ -79,13 +79,9 @@ template <class S> struct ConstJac<manif::Rn<S, 3>> { static const bool value = 
 template <class S> struct ConstJac<manif::Bundle<S, manif::SE3, manif::SO2, manif::R3>> { static const bool value = true; };
 
 // how much of the operation table is instantiated for a group (compile time of the TSan build):
-// 2 = everything, 1 = no Jacobian-output variants / CUBIC / CNSMOOTH / operator aliases, 0 = short list
+// 2 = everything, 1 = no Jacobian-output variants / CUBIC / CNSMOOTH / operator aliases, 0 = short list.
+// (measured: levels 1 and 2 cost the same to compile, so every double group gets the full table)
 template <class G> struct Level { static const int value = 2; };
-#ifndef C14_FULL
-template <class S> struct Level<manif::SE_2_3<S>> { static const int value = 1; };
-template <class S> struct Level<manif::SGal3<S>> { static const int value = 1; };
-template <class S> struct Level<manif::Bundle<S, manif::SE3, manif::SO2, manif::R3>> { static const int value = 1; };
-#endif
 template <> struct Level<manif::SO2f> { static const int value = 0; };
 template <> struct Level<manif::SE3f> { static const int value = 0; };
 template <> struct Level<manif::R3f> { static const int value = 0; };
